@@ -2,6 +2,8 @@ package utils
 
 // C15 — key-to-slot mapping follows the Redis Cluster specification.
 //
+//vf:opt C15 timeout=60000
+//vf:opt C06 timeout=60000
 //vf:job C15 quick VF_C15_KeyToSlot n=0..4
 //vf:job C15 thorough VF_C15_KeyToSlot n=5..6
 //vf:assume C15 crc16 on the specification side is the tool's own function applied to the spec tag (CRC16/XMODEM equivalence is the separate one-step lemma)
